@@ -371,6 +371,14 @@ DIRECTED = [
     ("retry-after-line-count-error-junk-body", "none", "none", False, False, {"off": "X"}, [{"k": "body", "c": "J", "hdr": False}], None),
     ("retry-after-line-count-error-truncated-zst", "zst", "none", False, False, {"arch": "Th"}, [], None),
     ("retry-after-line-count-error-bundled", "zst", "fail", False, True, {"arch": "Th"}, [], None, "lf", {"entry": "bundled", "cDecl": False}),
+    # the server announces the full Content-Length and closes the connection cleanly before it delivered that much (no reset, no
+    # time-out): urllib3 reports IncompleteRead only because the request asks for enforce_content_length; must be retried,
+    # whether or not the track declares sizes
+    ("short-body-clean-close-undeclared-archive", "zst", "none", False, False, {}, [{"k": "proto", "how": "short", "after": 70000}, "G"], None),
+    ("short-body-clean-close-undeclared-uncompressed", "none", "none", False, False, {"tmp": "stale"}, [{"k": "proto", "how": "short", "after": 700000}, {"k": "proto", "how": "short", "after": 0}, "G"], None, "crlf"),
+    ("short-body-clean-close-archive-size-undeclared-only", "gz", "ok", True, False, {"arch": "absent"}, [{"k": "proto", "how": "short", "after": 150000}, "G"], None),
+    ("short-body-clean-close-declared", "zip", "none", True, True, {}, [{"k": "proto", "how": "short", "after": 65536}, "G"], None),
+    ("short-body-clean-close-every-attempt", "tar.gz", "none", False, False, {}, [{"k": "proto", "how": "short", "after": 1000 * (i + 1)} for i in range(11)], None),
     # a well-formed response (Content-Length == body length) that is not the declared file: must never get the final name
     ("short-body-matching-header-declared", "gz", "none", True, True, {}, [{"k": "body", "c": "Th", "hdr": True}, "G"], None),
     ("junk-200-declared-uncompressed", "none", "none", True, False, {"tmp": "stale"}, [{"k": "body", "c": "J", "hdr": True}], None),
